@@ -34,7 +34,8 @@ SHARED = set()     # keys of the current history whose member object is also sto
 def plan(tier):
     return {"shards": 16, "timeout": 900 if tier == "quick" else 4 * 3600,
             "required_monitors": ["row-alignment", "rejected-insertion-leaves-state", "sort-alignment",
-                                  "quiescent-invariant"]}
+                                  "quiescent-invariant"],
+            "required_tags": ["bulk-insertion-into-empty-group"]}
 
 
 def cases(ctx):
@@ -42,6 +43,9 @@ def cases(ctx):
     out = [{"id": f"fix{i}", "i": i, "fixed": True} for i in range(60)]
     out += [{"id": f"h{i}", "i": i} for i in range(n)]
     out.append({"id": "contracts-repo-tests", "kind": "contracts", "i": 0})
+    # insertions of several members at once (update with a mapping / keywords, the constructor), also into a group that
+    # is empty at that moment: the members of one call must agree with each other, not only with the group
+    out += [{"id": f"bulk{i}", "kind": "bulk", "i": i} for i in range(96 if ctx.tier == "quick" else 6000)]
     return out
 
 
@@ -162,7 +166,85 @@ def _draw_index(osy, rng, n):
     return np.zeros(0, dtype=int), "empty index", ar[np.zeros(0, dtype=int)]
 
 
+def _bulk(case, ctx, res):
+    osy = ctx.osyris
+    i = case["i"]
+    rng = np.random.default_rng(np.random.SeedSequence([20240206, 66, i])) if i < 96 else ctx.rng("bulk", i)
+    n = int(rng.integers(1, 9))
+    start = ["fresh", "cleared", "popped", "deleted", "one-member", "two-members"][i % 6]
+    how = ["update-dict", "update-kwargs", "constructor", "update-dict"][(i // 6) % 4]
+    dg = osy.Datagroup()
+    if start in ("cleared", "popped", "deleted", "one-member", "two-members"):
+        dg["old0"] = _make_member(osy, rng, n, 1, kind="array")[0]
+        if start != "one-member":
+            dg["old1"] = _make_member(osy, rng, n, 2)[0]
+        if start == "cleared":
+            dg.clear()
+        elif start == "popped":
+            dg.pop("old1")
+            dg.pop("old0")
+        elif start == "deleted":
+            del dg["old0"]
+            del dg["old1"]
+    empty = len(dg) == 0
+    # members of the call: k of the group's length (or of a common new length if the group is empty), one of another
+    nnew = int(rng.integers(2, 5))
+    base = n if not empty else int(rng.integers(1, 9))
+    odd = base + int(rng.choice([-1, 1, 2, 5])) if base > 1 else base + 1
+    pos_odd = int(rng.integers(0, nnew)) if (i // 24) % 2 == 0 else None      # None: a consistent call (must be accepted)
+    new = {}
+    for j in range(nnew):
+        new[f"new{j}"] = _make_member(osy, rng, odd if j == pos_odd else base, 10 + j)[0]
+    lens = {k: (v.shape[0] if v.shape else None) for k, v in new.items()}
+    label = f"{how} of members with lengths {list(lens.values())} on a group that is {start} (length {None if empty else n})"
+    res.sample = {"start": start, "how": how, "lengths": list(lens.values())}
+    res.digest_src = {"bulk": i, "start": start, "how": how, "lens": list(lens.values())}
+    res.nontrivial = pos_odd is not None
+    res.tag("bulk-insertion")
+    if empty:
+        res.tag("bulk-insertion-into-empty-group")
+    before_old = {k: fp(dg[k]) for k in dg.keys()}
+    if how == "constructor":
+        if not empty:
+            how = "update-dict"
+        else:
+            o = attempt(lambda: osy.Datagroup(**new))
+            tgt = o.value if o.ok else None
+    if how == "update-dict":
+        o = attempt(dg.update, new)
+        tgt = dg
+    elif how == "update-kwargs":
+        o = attempt(lambda: dg.update(**new))
+        tgt = dg
+    res.count("rejected-insertion-leaves-state")
+    if pos_odd is None:
+        if not o.ok:
+            res.violate("valid-insertion-rejected", f"{label}: {o.describe()}", tb=o.tb)
+        elif set(tgt.keys()) != set(before_old) | set(new):
+            res.violate("row-misaligned", f"{label}: keys {list(tgt.keys())}")
+        return
+    if o.ok:
+        shapes = {k: tgt[k].shape for k in tgt.keys()}
+        res.violate("bad-insertion-accepted", f"{label}: accepted; the group now holds members of shapes {shapes}")
+        return
+    # rejected: whatever was inserted before the offending member, the group must be consistent and the old members intact
+    res.count("quiescent-invariant")
+    if tgt is not None:
+        shapes = {tgt[k].shape for k in tgt.keys()}
+        if len(shapes) > 1:
+            res.violate("shape-invariant-broken", f"{label}: rejected, but the group is left with members of shapes {shapes}")
+            return
+        for k, f0 in before_old.items():
+            if k not in tgt.keys() or fp(tgt[k]) != f0:
+                res.violate("rejected-insertion-changed-state", f"{label}: rejected, but old member {k!r} changed or disappeared")
+                return
+        if f"new{pos_odd}" in tgt.keys() and len(tgt.keys()) > 1:
+            res.violate("bad-insertion-accepted", f"{label}: raised, but the mis-shaped member is in the group")
+
+
 def run_case(case, ctx, res):
+    if case.get("kind") == "bulk":
+        return _bulk(case, ctx, res)
     if case.get("kind") == "contracts":
         from .. import contracts
         return contracts.judge_repo_tests(res, ctx, ["test_datagroup.py"], ("Datagroup.",))
